@@ -18,6 +18,7 @@ package main
 // under contract itself or executed inline (accessors such as Level(), RingQ(), AtLevel()).
 
 import (
+	"golang.org/x/tools/go/ssa"
 	"runtime/debug"
 	"os"
 	"fmt"
@@ -70,6 +71,8 @@ type bTuple []bVal
 
 type bFuncVal struct {
 	name string
+	fn   *ssa.Function // known function (a function literal, a bound method value): can be called
+	free []bVal        // values of its free variables
 }
 
 // bObject: a heap object (allocation or symbolic input object).
@@ -258,6 +261,10 @@ func (s *bState) assume(t *Term) {
 			s.consts[a.Name] = b
 		} else if b.Op == "var" && a.IsConst() {
 			s.consts[b.Name] = a
+		} else if a.Op == "var" && b.Op == "app" && strings.HasPrefix(b.Name, "cmpval") && strings.Contains(a.Name, ".res") {
+			// the result of a comparison under contract is the (uninterpreted) outcome the contract names:
+			// a branch on it is then decided by what the preconditions say about that outcome
+			s.consts[a.Name] = b
 		}
 	}
 	if t.Op == "var" && t.Sort == SBool {
